@@ -165,6 +165,10 @@ fn parse(
         Ok(Ok(m)) => {
             if let Some(e) = errors.first() {
                 Err(Rejected::Parse(format!("recoverable: {:?}", e.kind())))
+            } else if has_invalid_nodes(&m) {
+                // the parser sometimes recovers silently by producing `Invalid` nodes
+                // (seen: `<\0<<\0~<\0` as TSX); such a tree is not an accepted module
+                Err(Rejected::Parse("invalid-node-in-ast".into()))
             } else {
                 Ok(m)
             }
@@ -606,4 +610,17 @@ pub fn generated_ident_counts(t: &Transformed) -> Vec<(String, usize)> {
 /// serde JSON of a module (swc's `serde-impl`), for the generic AST comparer.
 pub fn module_json(m: &Module) -> serde_json::Value {
     serde_json::to_value(m).unwrap_or(serde_json::Value::Null)
+}
+
+
+fn has_invalid_nodes(m: &Module) -> bool {
+    struct V(bool);
+    impl Visit for V {
+        fn visit_invalid(&mut self, _: &Invalid) {
+            self.0 = true;
+        }
+    }
+    let mut v = V(false);
+    m.visit_with(&mut v);
+    v.0
 }
